@@ -65,9 +65,23 @@ def gen_config(r, index=None, subset_cycle=False, force_mode=None):
             'outputs': outputs, 'procs': procs, 'ids_class': cls,
             'transcriptions_file': r.random() < 0.15,
             'paths_in_config': [k for k in outputs if r.random() < 0.5] if r.random() < 0.25 else [],
+            'folders': folder_layout(r, outputs),
             'clock': {'inc': [r.choice([0.001, 0.05, 2.0]) for _ in range(3)],
                       'jumps': {str(r.randint(0, 30)): r.choice([-3600.0, 86400.0, -1.5])} if r.random() < 0.3 else {}}}
     return plan
+
+
+def folder_layout(r, outputs):
+    """Mostly one folder per output kind; sometimes PAGE XML nested inside the ALTO folder, or line crops
+    sharing the render folder (both legitimate and handled by the driver)."""
+    x = r.random()
+    if x < 0.08 and 'xml' in outputs and 'alto' in outputs:
+        return {'xml': 'alto/page'}
+    if x < 0.16 and 'render' in outputs and 'lines' in outputs:
+        return {'lines': 'render'}
+    if x < 0.2 and 'logits' in outputs and 'xml' in outputs:
+        return {'logits': 'xml/logits'}
+    return {}
 
 
 def writes_per_page(plan, p):
@@ -269,8 +283,9 @@ def execute(plan, world_cls=PfWorld):
             for p in ids:
                 exp[p]['lines'] = []
             for f in sorted(gt_snap):
-                if f.startswith('lines/'):
-                    owners = [p for p in ids if f.startswith('lines/%s-' % p)]
+                ld = world.dirname('lines')
+                if f.startswith(ld + '/') and f.count('/') == ld.count('/') + 1:
+                    owners = [p for p in ids if f.startswith('%s/%s-' % (ld, p))]
                     if owners:          # ids may be prefixes of each other (scan-7, scan-7-2): the longest one owns the crop
                         exp[max(owners, key=len)]['lines'].append(f)
             res.probe('layout_mode_lines_from_ground_truth')
